@@ -3,20 +3,22 @@ import json
 from . import api_common as ac
 from .. import apiuniverse as au
 
-CALLS = ['compile', 'compile_nv', 'update_var', 'update_edge']
+CALLS = ['compile', 'compile_nv', 'update_var', 'update_edge', 'zero']
 
 
 def run(ctx):
     tier = ctx.tier
     ctx.rule = ('TLC explores every history of <= 3 (quick) / 4 (thorough) calls from {update_var (single node, all, scalar, '
-                'per-node array; rate constant and initial value), update_var(edge_vars), get_run_func(node_values=...), '
+                'per-node array, value 0; rate constant and initial value), update_var(edge_vars), get_run_func(node_values=...) with '
+                'single-node, all/ scalar and all/ per-node array values (also 0), '
                 'get_run_func} over a universe in which NodeTemplate and OperatorTemplate objects are shared between nodes and '
                 'circuits; the action properties OnlyAddressedChange / EdgeOverrideOnlyItsEdge are checked on every step; each '
                 'distinct abstract state reached by a compile is replayed and the compiled field/initial state compared exactly')
     ctx.assumptions += ['node-template constructor overrides are part of the fixed universe (t3: k, t4: x0)',
                         'in_place=False compiles; second compiles of one template are subject to known finding D40']
     behs = ac.dedupe(ac.tlc_behaviours(ctx, 'C07', CALLS, 2 if tier == 'quick' else 3,
-                                       simulate=(300, 4) if tier == 'quick' else (3000, 7)))
+                                       simulate=(300, 4) if tier == 'quick' else (3000, 7),
+                                       extra=['ClearingCompiles'] if tier == 'quick' else []))
     ctx.notes['deviations_detected_by'] = {d: ac.vacuity(ctx, CALLS, d) for d in ('UpdateVarNoCopy', 'ApplyWritesVariations')}
     behs = [b for b in behs if any(c['a'] in ('update_var', 'update_edge', 'compile_nv') for c in b['calls'])]
     ac.judge_all(ctx, behs, 'compiled model after overrides', cap=1500 if ctx.tier == "quick" else 25000)
